@@ -83,6 +83,7 @@ pub struct Sem<'u> {
     pub fuel: u64,
     depth: usize,
     ret_stack: Vec<Ty>,
+    ns_stack: Vec<Vec<String>>,
 }
 
 fn get_path(v: &V, path: &[Step]) -> R<V> {
@@ -159,7 +160,7 @@ fn swizzle_indices(m: &str) -> Option<Vec<usize>> {
 
 impl<'u> Sem<'u> {
     pub fn new(u: &'u Unit, d: Dialect) -> Sem<'u> {
-        Sem { u, d, store: Vec::new(), scopes: Vec::new(), globals: HashMap::new(), fuel: 400_000, depth: 0, ret_stack: Vec::new() }
+        Sem { u, d, store: Vec::new(), scopes: Vec::new(), globals: HashMap::new(), fuel: 400_000, depth: 0, ret_stack: Vec::new(), ns_stack: Vec::new() }
     }
 
     fn tick(&mut self) -> R<()> {
@@ -893,7 +894,21 @@ impl<'u> Sem<'u> {
     }
 
     fn call(&mut self, name: &str, _targs: &[String], args: &[Ex]) -> R<(V, Ty)> {
-        let cands: Vec<&'u FuncD> = self.u.funcs.iter().filter(|f| f.name == name && f.has_body).collect();
+        // a local variable or parameter of that name hides every function (the call is then ill-formed)
+        if !name.contains("::") && self.scopes.iter().any(|sc| sc.contains_key(name)) {
+            return bad(format!("call of {}: a local variable of that name hides the function", name));
+        }
+        // unqualified lookup goes outward from the namespace of the calling function
+        let mut cands: Vec<&'u FuncD> = Vec::new();
+        let mut prefix: Vec<String> = self.ns_stack.last().cloned().unwrap_or_default();
+        loop {
+            let full = if prefix.is_empty() { name.to_string() } else { format!("{}::{}", prefix.join("::"), name) };
+            cands = self.u.funcs.iter().filter(|f| f.name == full && f.has_body).collect();
+            if !cands.is_empty() || prefix.is_empty() {
+                break;
+            }
+            prefix.pop();
+        }
         if cands.is_empty() {
             if let Some((op, float_result)) = self.builtin(name) {
                 let mut vals = Vec::new();
@@ -1068,7 +1083,9 @@ impl<'u> Sem<'u> {
         } else {
             self.depth += 1;
             self.ret_stack.push(ret_ty.clone());
+            self.ns_stack.push(namespace_of(&f.name));
             let r = self.block(&f.body);
+            self.ns_stack.pop();
             self.ret_stack.pop();
             self.depth -= 1;
             r
@@ -1133,7 +1150,9 @@ impl<'u> Sem<'u> {
         }
         let ret_ty = self.ty(&f.ret)?;
         self.ret_stack.push(ret_ty.clone());
+        self.ns_stack.push(namespace_of(&f.name));
         let flow = self.block(&f.body);
+        self.ns_stack.pop();
         self.ret_stack.pop();
         let r = flow.and_then(|fl| match fl {
             Flow::Return(v) => Ok(v),
@@ -1325,6 +1344,12 @@ impl<'u> Sem<'u> {
             }),
         })
     }
+}
+
+fn namespace_of(qualified: &str) -> Vec<String> {
+    let mut parts: Vec<String> = qualified.split("::").map(|s| s.to_string()).collect();
+    parts.pop();
+    parts
 }
 
 fn first_scalar(v: &V) -> V {
